@@ -401,6 +401,35 @@ def run_channel(item):
                 finally:
                     os.rename(vpath + ".expired", vpath)
                     r6.close()
+        # --- file-system state the writer did not produce: a damaged file (partial copy) with a well-formed name in an
+        #     older subdirectory.  It holds no readable sample: bounds and reads of the recording are unaffected
+        if not isinstance(tops, list) and lo > 10 * (cfg["n"] * cfg["fc"] // (cfg["d"] * 1000) + 1) + 10:
+            import contextlib
+            import io
+
+            k_old = lo - 10 * (cfg["n"] * cfg["fc"] // (cfg["d"] * 1000) + 1) - 5
+            ghost = os.path.join(run.chdir, rf.file_relpath(k_old, cfg))
+            if not os.path.exists(ghost):
+                made_dir = not os.path.isdir(os.path.dirname(ghost))
+                os.makedirs(os.path.dirname(ghost), exist_ok=True)
+                with open(ghost, "wb") as f_:
+                    f_.write(b"\x89HDF\r\n\x1a\n" + b"\0" * 1016)
+                part["evaluations"] += 2
+                try:
+                    with contextlib.redirect_stdout(io.StringIO()):
+                        r7 = drf.DigitalRFReader(top)
+                        b7 = tuple(r7.get_bounds(ch))
+                        got7 = rf.read_runs(r7, ch, lo, hi)
+                    err7 = rf.compare_runs(cfg, got7, full_model)
+                    if b7 != (lo, hi) or err7:
+                        bad({"class": "damaged_foreign_file_changes_answers"}, "with a truncated %s present: bounds %r (expected %r); read: %s" % (
+                            os.path.basename(ghost), b7, (lo, hi), err7))
+                    r7.close()
+                except Exception as e:  # noqa: BLE001
+                    bad({"class": "damaged_foreign_file_breaks_reader", "exc": type(e).__name__}, "with a truncated %s present: %r" % (os.path.basename(ghost), e))
+                os.remove(ghost)
+                if made_dir:
+                    os.rmdir(os.path.dirname(ghost))
         reader.close()
         # --- the same channel described by the older drf_properties.h5 layout the reader still accepts (no
         #     numerator/denominator, a samples_per_second value only), for rates that this value determines
